@@ -135,3 +135,19 @@ Proof. intros H. unfold fc_wrap32. apply Z.mod_small. lia. Qed.
 Lemma wrap32_range x : 0 <= fc_wrap32 x < 2 ^ 32.
 Proof. unfold fc_wrap32. pose proof (Z.mod_pos_bound x 4294967296). lia. Qed.
 
+
+Lemma Ok_inj {A} (a b : A) : Ok a = Ok b -> a = b.
+Proof. intros H. now injection H. Qed.
+(* binpatch's write-then-rename application returns a file or an ordinary error *)
+Lemma rewrite_from_no_panic ps : forall pos f p, C12.Model.rewrite_from pos ps f <> Panic p.
+Proof.
+  induction ps as [|q ps IH]; intros pos f p; cbn [C12.Model.rewrite_from]; [discriminate|].
+  destruct (C12_gen.rewrite_out_of_order _); [discriminate|]. destruct (_ && _); [discriminate|].
+  destruct (C12.Model.rewrite_from _ ps f) eqn:E; cbn [bind]; try discriminate. exfalso. exact (IH _ _ _ E).
+Qed.
+Lemma app_inj_len {A} (a b c d : list A) : a ++ b = c ++ d -> zlen a = zlen c -> a = c /\ b = d.
+Proof.
+  intros E L. assert (Ea : a = c).
+  { rewrite <- (ztake_app_exact (zlen a) a b eq_refl), E. now apply ztake_app_exact. }
+  subst c. split; [reflexivity|]. now apply app_inv_head in E.
+Qed.
